@@ -1465,6 +1465,7 @@ def inline_pure(P, t):
 # ====================================================================== stable keys
 
 _SHAPE_BODY = [None]
+_SHAPE_LOOSE = [False]
 
 
 def shape(t, depth=0):
@@ -1510,6 +1511,8 @@ def shape(t, depth=0):
     if k == "clobbered":
         pl = t[2]
         b = _SHAPE_BODY[0]
+        if _SHAPE_LOOSE[0] and not (b is None or pl[0] <= b.arg_count):
+            return "mut(local%s)" % "".join(e for e in pl[1:] if e != "*")
         if b is None or pl[0] <= b.arg_count:
             root = "arg%d" % pl[0]
         else:
@@ -1547,3 +1550,20 @@ def site_key(P, D, s):
     h = hashlib.sha1(full.encode()).hexdigest()[:10]
     head = "%s:%s@%s(%s)" % (s.kind, s.what, short, ";".join(x[:48] for x in shp))
     return "%s#%s" % (head[:150], h)
+
+
+def loose_key(P, D, s):
+    """the site's shape with the enclosing function's name and the names of its locals erased: used only to recognise a
+    reviewed construct again after its function or a local was renamed (see rules/c05.check_sites)"""
+    import hashlib
+    pr = D.prover(s.body)
+    n = len(s.body.blocks[s.bb]["stmts"])
+    ops = [canon(pr.T.operand(o, s.bb, n)) for o in s.ops[:2]]
+    _SHAPE_BODY[0] = s.body
+    _SHAPE_LOOSE[0] = True
+    try:
+        shp = [shape(o) for o in ops]
+    finally:
+        _SHAPE_BODY[0] = None
+        _SHAPE_LOOSE[0] = False
+    return hashlib.sha1(("%s|%s" % (s.kind + ":" + s.what, "|".join(shp))).encode()).hexdigest()[:8]
